@@ -23,6 +23,7 @@ Later additions (each documented at its function; DESIGN.md sections 11-18):
   N22 calls to resolved callees written positionally, default-valued keywords dropped  N23 .format / % read as f-strings
   N24 a local that merely names `self.a.b` is that attribute      N26 `**extra` of a never-written empty literal dropped      N27 dead code after a jump
   N28 private NamedTuple records are tuples (fields unpacked)      N29 private slotted records are dicts      N30 a private field that is only a literal
+  N31 new named constants read as their literals (specialise.py)   N32 bool(X) in test position is X
   (+ sa/specialise.py: opt-in options newer than the pinned tree are analysed at their default; sa/inline.py: helpers newer than the pinned tree substituted)
 
 Line numbers are kept (reports still point at the source line); printed constructs show the normal form.
@@ -58,6 +59,11 @@ def _strip_not(t):
 def _test(t):
     """normal form of an expression in test position (value only matters for truthiness)"""
     t, neg = _strip_not(t)
+    # N32: bool(X) in test position is X (only the truth value is read)
+    while isinstance(t, ast.Call) and isinstance(t.func, ast.Name) and t.func.id == "bool" and len(t.args) == 1 and not t.keywords \
+            and not isinstance(t.args[0], ast.Starred):
+        t, neg2 = _strip_not(t.args[0])
+        neg = neg != neg2
     if isinstance(t, ast.BoolOp):
         t.values = [_test(v) for v in t.values]
     if neg:
